@@ -71,6 +71,18 @@ INFO = {
     "C05-D": ("path_signature_table no longer flags DEL (0x7F) while PATH_PERCENT_ENCODE still contains it", "DEL byte in a non-opaque path with no other character needing encoding in that path"),
     "C11-C": ("update_base_search scans for the first byte to escape with the plain query set", "aggregator with a fragment, special scheme, set_search value with an apostrophe before the first other escapable byte"),
     "C11-D": ("opaque path ending in a space skips C0-control escaping", "opaque path with a space directly before '?'/'#' and a control or non-ASCII byte elsewhere in the path"),
+    "C06-C": ("to_ascii no longer clears the Punycode scratch buffer between 'xn--' labels", "non-ASCII domain with at least two 'xn--' labels whose mixture flips the validity verdict"),
+    "C06-D": ("ContextJ rule for ZWNJ tests the joining classes on the wrong sides", "label with U+200C (no virama) whose one side has only right-joining or only left-joining letters"),
+    "C13-C": ("ensure_tables() picks the initialiser with exchange() instead of compare_exchange: READY can be overwritten by IN_PROGRESS", "thread preempted between its first load and the exchange while another thread completes the whole initialisation"),
+    "C13-D": ("function-local static memo of the last converted domain in unicode::to_ascii", "two or more threads converting special-scheme hosts that leave the ASCII fast path, on distinct objects"),
+    "C14-C": ("'|' missing from escape_regexp_table: literal '|' becomes an alternation in the generated regexp", "pathname/search/hash literal containing '|' in a component that runs in REGEXP mode (ignoreCase, or next to another part)"),
+    "C14-D": ("create_component_match_result moves the group names out of the component", "at least two successful exec()/match() calls on the same pattern object; the groups of the second are reported under the key ''"),
+    "C15-C": ("canonicalize_hostname shortcut calls is_ipv4() only when the value starts with a digit", "simple hostname not starting with a digit whose last label is a number (example.1, a.b.0x10)"),
+    "C15-D": ("default-port elision compares numerically with from_chars (prefix parse)", "literal special protocol, port text whose leading digits equal the default port but which is not exactly it (0443, 80{80}?)"),
+    "C16-C": ("sort_marks() insertion sort uses '>=': same-class combining marks come out reversed on the full normalisation path", "label with two marks of equal combining class on a non-composing base, plus non-NFC text elsewhere in the domain, compared with the already-NFC spelling"),
+    "C16-D": ("to_unicode no longer clears its Punycode scratch buffer between labels", "domain with two or more 'xn--' labels through to_unicode"),
+    "C18-C": ("SSSE3-only find_next_host_delimiter(): low_mask[0xC] marks '\\' as a delimiter for non-special URLs", "-mssse3 build, non-special URL with authority, >= 16 bytes after the scan position, '\\' in the authority"),
+    "C18-D": ("AVX-512-only try_parse_ipv4_avx512(): four dots accepted without requiring the last byte to be a dot", "-mavx512bw -mavx512vl build, host a.b.c.d.X with X a single digit (9-16 bytes)"),
     "C19-A": ("parse_scheme slow path no longer clears a port equal to the new scheme's default", "set_protocol with a special scheme spelled with an upper-case letter on a URL whose port is that scheme's default (https://h:80 -> 'HTTP')"),
     "C19-B": ("unicode::to_ascii accepts an empty IDNA result: special URL with an empty host", "special non-file URL whose host consists only of IDNA-ignored code points (U+00AD ...), via parse or host setters"),
     "C18-A": ("AVX-512-only ipv6_structure_plausible(): 'colons > 8' became '> 7'", "-mavx512bw -mavx512vl build, bracketed IPv6 host with exactly 8 colons"),
